@@ -136,5 +136,8 @@ def run(ck, facts, tier):
     prims.rule_null_array(ck, facts, "C01.prims")
     prims.rule_site_table(ck, facts, "C05.site-table")
     prims.rule_scheduler_heap(ck, facts, "C01.prims")
+    from . import c11
+
+    c11.rule_closure_lifetime(ck, facts)
     ck.not_decided("equality of outputs for a given program; register allocation, control-flow lowering and memory models are not compared")
     ck.not_decided("anything about wasmtime's execution of the emitted module")
